@@ -5,6 +5,7 @@ from mypy.nodes import ArgKind
 from pyvc.api import clause, contract, implies, opaque
 from safeds_stubgen.api_analyzer._api import ParameterAssignment as PA
 from safeds_stubgen.api_analyzer._api import VarianceKind
+import safeds_stubgen.api_analyzer._types as sds_types  # noqa: F401
 
 _M = "safeds_stubgen.api_analyzer._mypy_helpers:"
 
@@ -62,6 +63,37 @@ class expr_to_value:
             return implies(expr.name == "None", result is None) and implies(expr.name == "True", result is True) \
                 and implies(expr.name == "False", result is False)
         return result == expr.value
+
+
+@contract(_M + "mypy_expression_to_sds_type", props=["C07", "C05", "C01"])
+class expr_to_sds_type:
+    """Literal expression -> the type recorded for it (C07: result types inferred from returned literals): int / float /
+    str literals and True / False map to the builtin of that name, any other name to a reference with mypy's full name,
+    a tuple display to a tuple type (the entry count is not proved: fold length over recursive calls stayed undecided). The
+    function itself raises exactly for other expression kinds (recursive calls are used through this contract; an
+    exception raised inside one is not propagated by the encoding - listed assumption)."""
+    params = {"expr": "mp_nodes.Expression"}
+    returns = "sds_types.AbstractType"
+
+    def raises_TypeError(expr):
+        return not (isinstance(expr, mp_nodes.NameExpr) or isinstance(expr, mp_nodes.IntExpr)
+                    or isinstance(expr, mp_nodes.FloatExpr) or isinstance(expr, mp_nodes.StrExpr)
+                    or isinstance(expr, mp_nodes.TupleExpr) or isinstance(expr, mp_nodes.UnaryExpr))
+
+    def ensures_table(expr, result):
+        if isinstance(expr, mp_nodes.NameExpr):
+            return result == (sds_types.NamedType(name="bool", qname="builtins.bool")
+                              if (expr.name == "False" or expr.name == "True")
+                              else sds_types.NamedType(name=expr.name, qname=expr.fullname))
+        if isinstance(expr, mp_nodes.IntExpr):
+            return result == sds_types.NamedType(name="int", qname="builtins.int")
+        if isinstance(expr, mp_nodes.FloatExpr):
+            return result == sds_types.NamedType(name="float", qname="builtins.float")
+        if isinstance(expr, mp_nodes.StrExpr):
+            return result == sds_types.NamedType(name="str", qname="builtins.str")
+        if isinstance(expr, mp_nodes.TupleExpr):
+            return isinstance(result, sds_types.TupleType)
+        return True
 
 
 # ---------------------------------------------------------------------------------------------- return statements (C07)
